@@ -378,6 +378,8 @@ def check(ctx, rep):
     closest_metric(ctx, rep, 'C17b')
     window_bounds(ctx, rep, 'C17a')
     peak_identity(ctx, rep, 'C17d')
+    from .common import shared_rows_rule
+    shared_rows_rule(ctx, rep, 'C17d', (SC,))
     callers = {f.fq for f in program.all_functions() if f.module.name == SC}
     n = add_fwd(rep, forwarding(an, program, ['tolerance_value', 'tolerance_type', 'mode', 'intensity_spectra'],
                                 callers=callers), 'C17c')
